@@ -310,11 +310,12 @@ def check_handlers(ctx: Ctx, rep: Report, wm: WalkModel) -> None:
 
             return env
 
-        outs = simulate(cfg, env_for(True), start=hnode)
+        wdefs = ctx.defs(w)
+        outs = simulate(cfg, env_for(True), start=hnode, expand=wdefs.expand)
         fetch_ids = {n.id for n in fetch_nodes if n is not None}
         ok = bool(outs) and all(o.kind in ("return", "fallthrough") and not any(t.id in fetch_ids for t in o.trail) and not any(isinstance(t.ast, ast.Expr) and isinstance(t.ast.value, ast.Yield) for t in o.trail) for o in outs)
         rep.check(ok, "C03-R4", w.site(handler), "lenient mode: the handler ends the walk normally without another request", f"{outs}", key=f"{w.key}|lenient-continues")
-        outs = simulate(cfg, env_for(False), start=hnode)
+        outs = simulate(cfg, env_for(False), start=hnode, expand=wdefs.expand)
         ok = bool(outs) and all(o.kind == "raise" for o in outs)
         rep.check(ok, "C03-R4", w.site(handler), "strict mode: the handler re-raises FaultySNMPImplementation", f"{outs}", key=f"{w.key}|strict-swallowed")
 
